@@ -102,7 +102,7 @@ func partsExistWhenEmitted(ti *mon.TraceIndex, rec string) []mon.Problem {
 func c19(args []string) {
 	c := chk.New("C19", "exploration", args)
 	c.Build(false)
-	c.Rule("every bundled component is placed between sources and recorders / consuming tasks and compared with a reference function: FileCombinator and ParamCombinator with 1-4 ports and stream lengths 0..B+1 from independent upstreams (B in {1,3}) and 0..B from a shared upstream - the multiset of aligned tuples (i-th item of every out-port) must equal the Cartesian product, each once; IPSelectorSync with every predicate outcome pattern over up to 6 aligned tuples; FileSplitter over files of 0..12 lines (some lines 5 000 and 20 000 bytes long, percent signs and tabs in the text) (with and without trailing newline) x 1..5 lines per split - parts concatenate back to the input, no part longer than the limit; Concatenator (single upstream: exact arrival order; fan-in: arrival order as recorded; GroupByTag) - output == every input's content plus newline once in arrival order; FileSource / ParamSource / FileToParamsReader (incl. last line without newline, empty lines) / CommandToParams - emitted == given / read, in order; FileGlobber - emitted == an independent matcher over a generated directory tree, per pattern in lexical order; the recorders stat every item on reception: what a file-emitting component hands downstream must exist at that moment (FileSplitter parts included); Concatenator with GroupByTag over a stream mixing tagged and untagged files; FileSplitter history: one file split in a first run, then that file plus unsplit ones in a second run. distinct_nontrivial = distinct (component, shape) cases whose comparison was made on >= 1 emitted item or an empty expectation")
+	c.Rule("every bundled component is placed between sources and recorders / consuming tasks and compared with a reference function: FileCombinator and ParamCombinator with 1-4 ports and stream lengths 0..B+1 from independent upstreams (B in {1,3}) and 0..B from a shared upstream - the multiset of aligned tuples (i-th item of every out-port) must equal the Cartesian product, each once; IPSelectorSync with every predicate outcome pattern over up to 6 aligned tuples; FileSplitter over files of 0..12 lines (some lines 5 000 and 20 000 bytes long, percent signs and tabs in the text) (with and without trailing newline) x 1..5 lines per split - parts concatenate back to the input, no part longer than the limit; Concatenator (single upstream: exact arrival order; fan-in: arrival order as recorded; GroupByTag) - output == every input's content plus newline once in arrival order; FileSource / ParamSource / FileToParamsReader (incl. last line without newline, empty lines) / CommandToParams - emitted == given / read, in order; FileGlobber - emitted == an independent matcher over a generated directory tree, per pattern in lexical order; the recorders stat every item on reception: what a file-emitting component hands downstream must exist at that moment (FileSplitter parts included); Concatenator with GroupByTag over a stream mixing tagged and untagged files, and over tag values that differ in punctuation only (files identified through the emitted IPs); two or three FileSplitter processes at work at the same time on equally named files in different directories; FileSplitter history: one file split in a first run, then that file plus unsplit ones in a second run. distinct_nontrivial = distinct (component, shape) cases whose comparison was made on >= 1 emitted item or an empty expectation")
 	c.Assume("unequal closing of IPSelectorSync inputs is a documented failure and is not generated", "a trailing empty part after an exact multiple of the line limit is legal")
 	rng := c.Rand("c19")
 	var jobs []*c19Job
@@ -368,6 +368,54 @@ func c19(args []string) {
 					return ps
 				}})
 		}
+	}
+	// GroupByTag with tag values that differ in punctuation only (1.5 / 1_5 / 1-5): one output per value. The files are
+	// identified through the emitted IPs, not through their names.
+	for rep := 0; rep < c.Pick(2, 6); rep++ {
+		s := &spec.Spec{Name: "concatpunct", MaxTasks: 4, Sources: map[string]string{}}
+		src := &spec.Proc{Name: "S", Kind: spec.KFileSource}
+		vals := [][]string{{"r1.5", "r1_5", "r1-5", "r15"}, {"a.b", "a_b", "a__b", "a.b.c", "a_b_c"}, {"x-1", "x_1", "x.1"}}[rep%3]
+		for k := 0; k < 2*len(vals); k++ {
+			f := fmt.Sprintf("d%d/%s.txt", k/len(vals), vals[(k*3+rep)%len(vals)])
+			src.Files = append(src.Files, f)
+			s.Sources[f] = "content of " + f + "\n2nd"
+		}
+		s.Procs = append(s.Procs, src, &spec.Proc{Name: "RIN", Kind: spec.KRecorder}, &spec.Proc{Name: "T", Kind: spec.KMapToTags, Tags: []*spec.TagRule{{Key: "grp", Rule: "noext"}}},
+			&spec.Proc{Name: "CC", Kind: spec.KConcat, OutPath: "all/punct.txt", GroupBy: "grp"}, &spec.Proc{Name: "ROUT", Kind: spec.KRecorder})
+		s.Conns = append(s.Conns, &spec.Conn{From: "S.out", To: "RIN.in"}, &spec.Conn{From: "RIN.out", To: "T.in"}, &spec.Conn{From: "T.out", To: "CC.in"}, &spec.Conn{From: "CC.out", To: "ROUT.in"})
+		srcs := s.Sources
+		jobs = append(jobs, &c19Job{name: "Concatenator", s: s, cfg: cfgOf([]int{1, 3}[rep%2]), label: fmt.Sprintf("group by tag, values differing in punctuation only %v", vals),
+			oracle: func(res *run.Result, ti *mon.TraceIndex, exp *ref.Result) []mon.Problem {
+				want := map[string]string{}
+				for _, p := range recPaths(ti, "RIN") {
+					want[ref.TagValue("noext", p)] += srcs[p] + "\n"
+				}
+				var wantC, gotC []string
+				for _, w := range want {
+					wantC = append(wantC, w)
+				}
+				var ps []mon.Problem
+				seen := map[string]bool{}
+				for _, p := range recPaths(ti, "ROUT") {
+					if seen[p] {
+						ps = append(ps, mon.Problem{Sig: "concatenator-emitted", Msg: "the same file was emitted twice: " + p})
+						continue
+					}
+					seen[p] = true
+					b, err := os.ReadFile(filepath.Join(res.Wd, p))
+					if err != nil {
+						ps = append(ps, mon.Problem{Sig: "concatenator-output-missing", Msg: p})
+						continue
+					}
+					if len(b) > 0 {
+						gotC = append(gotC, string(b))
+					}
+				}
+				if !sameMultiset(gotC, wantC) {
+					ps = append(ps, mon.Problem{Sig: "concatenator-content", Msg: fmt.Sprintf("the emitted files hold %q; one file per tag value with its inputs in arrival order gives %q", gotC, wantC)})
+				}
+				return ps
+			}})
 	}
 	for _, fanin := range []bool{false, true} {
 		for n := 0; n <= c.Pick(4, 12); n++ {
@@ -640,6 +688,53 @@ func c19(args []string) {
 					return nil
 				}})
 		}
+	}
+	// two (three) splitter processes at work at the same time on files that have the same base name in different directories
+	for rep := 0; rep < c.Pick(3, 9); rep++ {
+		nsp := 2 + rep%2
+		per := 1 + rep%3
+		nl := []int{30, 7, 200}[rep%3]
+		s := &spec.Spec{Name: "splitpar", MaxTasks: 4, Sources: map[string]string{}}
+		want := map[string][]string{}
+		for k := 0; k < nsp; k++ {
+			name := fmt.Sprintf("sample%c/reads.txt", 'A'+k)
+			var sb strings.Builder
+			for l := 0; l < nl+k; l++ {
+				fmt.Fprintf(&sb, "%s line %d\n", name, l)
+			}
+			s.Sources[name] = sb.String()
+			rn := fmt.Sprintf("R%d", k)
+			for x := 0; x <= (nl+k)/per; x++ {
+				want[rn] = append(want[rn], fmt.Sprintf("%s.split_%d", name, x+1))
+			}
+			s.Procs = append(s.Procs, &spec.Proc{Name: fmt.Sprintf("S%d", k), Kind: spec.KFileSource, Files: []string{name}},
+				&spec.Proc{Name: fmt.Sprintf("SP%d", k), Kind: spec.KSplitter, Lines: per}, &spec.Proc{Name: rn, Kind: spec.KRecorder})
+			s.Conns = append(s.Conns, &spec.Conn{From: fmt.Sprintf("S%d.out", k), To: fmt.Sprintf("SP%d.file", k)}, &spec.Conn{From: fmt.Sprintf("SP%d.split_file", k), To: rn + ".in"})
+		}
+		srcs := s.Sources
+		jobs = append(jobs, &c19Job{name: "FileSplitter", s: s, cfg: Cfg{Buf: []int{1, 3, 128}[rep%3], Procs: 4, NoHooks: rep%2 == 1}, label: fmt.Sprintf("%d splitters in parallel on equally named files, %d lines, %d per split", nsp, nl, per),
+			oracle: func(res *run.Result, ti *mon.TraceIndex, exp *ref.Result) []mon.Problem {
+				cat := map[string]string{}
+				for rn, w := range want {
+					got := recPaths(ti, rn)
+					if ps := partsExistWhenEmitted(ti, rn); len(ps) > 0 {
+						return ps
+					}
+					if !eqList(got, w) {
+						return []mon.Problem{{Sig: "splitter-emission-order", Msg: fmt.Sprintf("parts emitted as %v, expected %v", clipList(got, 8), clipList(w, 8))}}
+					}
+					for _, p := range got {
+						b, _ := os.ReadFile(filepath.Join(res.Wd, p))
+						cat[p[:strings.Index(p, ".split_")]] += string(b)
+					}
+				}
+				for f, content := range srcs {
+					if cat[f] != content {
+						return []mon.Problem{{Sig: "splitter-parts-do-not-concatenate-to-input", Msg: "parts of " + f + " do not concatenate back to it"}}
+					}
+				}
+				return nil
+			}})
 	}
 	run.Parallel(len(jobs), func(i int) {
 		j := jobs[i]
